@@ -706,17 +706,28 @@ func checkNode(c *vm.Ctx, r *vm.Rand, n node) {
 		trailer = nil
 	}
 	in := append(append([]byte{}, n.ref...), trailer...)
-	for srcKind := 0; srcKind < 2; srcKind++ {
+	for srcKind := 0; srcKind < 4; srcKind++ {
+		if srcKind == 3 && len(trailer) > 0 && n.tail {
+			continue
+		}
 		d, chk := n.dst(r)
 		var rd io.Reader
 		bs := &inject.ByteSrc{B: in}
 		pr := &inject.PlainReader{R: bytes.NewReader(in)}
+		var qr *inject.QuirkReader
 		sname := "bytereader"
-		if srcKind == 0 {
+		switch srcKind {
+		case 0:
 			rd = bs
-		} else {
+		case 1:
 			rd = pr
 			sname = "plainreader"
+		case 2: // a plain reader some of whose reads make no progress (allowed by io.Reader)
+			qr = &inject.QuirkReader{B: in, Stutter: true}
+			rd, sname = qr, "plainreader.zero-progress-reads"
+		default: // the field alone, its last byte delivered together with io.EOF
+			qr = &inject.QuirkReader{B: n.ref, DataEOF: true}
+			rd, sname = qr, "plainreader.data-with-eof"
 		}
 		var rn int64
 		if c.Guard("read/"+kc, wit, func() { rn, err = d.ReadFrom(rd) }) {
@@ -729,6 +740,8 @@ func checkNode(c *vm.Ctx, r *vm.Rand, n node) {
 		consumed := bs.Pos
 		if srcKind == 1 {
 			consumed = int(pr.N)
+		} else if qr != nil {
+			consumed = qr.Pos
 		}
 		if consumed != len(n.ref) {
 			c.Violation("read/"+kc+"/consumed", fmt.Sprintf("ReadFrom(%s) consumed %d bytes of the stream, the field is %d bytes", sname, consumed, len(n.ref)), wit())
